@@ -83,6 +83,10 @@ fn mk(open: bool) -> StoreImpl<u8, u8> {
 #[kani::unwind(3)]
 fn lock_dispatch() {
     let open: bool = kani::any();
+    let ok: bool = kani::any();
+    unsafe {
+        STUB_RESULT_OK = ok;
+    }
     let store = mk(open);
     unsafe {
         LOCK_PROBE = Some(&store.dispatch_tx as *const _);
@@ -91,9 +95,10 @@ fn lock_dispatch() {
     let r = store.dispatch(a);
     unsafe {
         if open {
-            assert!(r.is_ok(), "[O-C02-k-dispatch-ok C02 C04] open store: StoreImpl::dispatch returns Ok");
+            assert!(!ok || r.is_ok(), "[O-C02-k-dispatch-ok C02 C04] open store: StoreImpl::dispatch returns Ok when the channel admitted the action");
+            assert!(store.metrics.error_occurred.load(std::sync::atomic::Ordering::SeqCst) == 0, "[O-C18-k-dispatch-open-no-error C18] open store: nothing is counted as an error, whatever the channel answers");
             assert!(SENDS == 1 && SENT_ACTIONS == 1 && LAST_ACTION == a, "[O-C02-k-dispatch-once C02] open store: exactly one hand-over of exactly the caller's action");
-            assert!(SENT_UNDER_LOCK == 1, "[O-C02-k-dispatch-under-lock C02 C04 C06] the hand-over happens while dispatch_tx is locked");
+            assert!(SENT_UNDER_LOCK == 1, "[O-C02-k-dispatch-under-lock C02 C04 C05 C06] the hand-over happens while dispatch_tx is locked");
         } else {
             assert!(r.is_err(), "[O-C04-k-dispatch-closed C04] closed store: StoreImpl::dispatch returns Err");
             assert!(SENDS == 0, "[O-C04-k-dispatch-closed-nosend C04] closed store: nothing is handed over");
@@ -124,8 +129,9 @@ fn lock_dispatcher_dispatch() {
     unsafe {
         if open {
             assert!(SENDS == 1 && SENT_ACTIONS == 1 && LAST_ACTION == a, "[O-C02-k-ddispatch-once C02] open store: Dispatcher::dispatch hands over exactly the caller's action once");
-            assert!(SENT_UNDER_LOCK == 1, "[O-C02-k-ddispatch-under-lock C02 C04 C06] the hand-over happens while dispatch_tx is locked");
+            assert!(SENT_UNDER_LOCK == 1, "[O-C02-k-ddispatch-under-lock C02 C04 C05 C06] the hand-over happens while dispatch_tx is locked");
             assert!(r.is_ok() == ok, "[O-C06-k-ddispatch-err-iff-refused C06] Dispatcher::dispatch returns Err exactly when the channel refused the action");
+            assert!(store.metrics.error_occurred.load(std::sync::atomic::Ordering::SeqCst) == 0, "[O-C18-k-ddispatch-open-no-error C18] open store: Dispatcher::dispatch counts nothing as an error, whatever the channel answers");
         } else {
             assert!(r.is_err(), "[O-C04-k-ddispatch-closed C04] closed store: Dispatcher::dispatch returns Err");
             assert!(SENDS == 0, "[O-C04-k-ddispatch-closed-nosend C04] closed store: nothing is handed over");
@@ -169,7 +175,7 @@ fn lock_close() {
     unsafe {
         if open {
             assert!(SENDS == 1 && SENT_EXITS == 1 && SENT_ACTIONS == 0, "[O-C04-k-close-exit-once C04] first close: exactly one Exit marker is handed over");
-            assert!(SENT_UNDER_LOCK == 1, "[O-C04-k-close-exit-under-lock C04 C02] the Exit marker is handed over while dispatch_tx is locked (no action can slip in behind it)");
+            assert!(SENT_UNDER_LOCK == 1, "[O-C04-k-close-exit-under-lock C04 C02 C05] the Exit marker is handed over while dispatch_tx is locked (no action can slip in behind it)");
         } else {
             assert!(SENDS == 0, "[O-C04-k-close-idempotent C04] closed store: close hands nothing over");
         }
